@@ -27,8 +27,8 @@ Failed(e) ==
            ELSE IF C04Success(e.names, e.src, e.dst, e.pats, e.del, e.src2, e.dst2, e.staging) THEN {} ELSE {"C04"})
      ELSE (IF C04Failure(e.names, e.src, e.dst, e.pats, e.del, e.src2, e.dst2, e.reported) THEN {} ELSE {"C04"}))
   \cup (IF ~e.dry /\ e.exit = 0 /\ ~noop /\ e.second.ran
-          /\ ~(e.second.transfer = 0 /\ e.second.delete = 0 /\ e.second.unchanged /\ e.second.exit = 0) THEN {"C14"} ELSE {})
-  \cup (IF ~e.dry /\ e.exit = 0 /\ ~noop /\ e.sent # Cardinality(tr) THEN {"C14"} ELSE {})         \* only what changed is sent
+          /\ ~((e.second.known => (e.second.transfer = 0 /\ e.second.delete = 0)) /\ e.second.unchanged /\ e.second.exit = 0) THEN {"C14"} ELSE {})
+  \cup (IF ~e.dry /\ e.exit = 0 /\ ~noop /\ e.sent_known /\ e.sent # Cardinality(tr) THEN {"C14"} ELSE {})         \* only what changed is sent (printed count, when readable)
   \cup (IF \E p \in Dom(e.names) : ExcludedDef(e.names[p], e.pats) /\ ~SameExact(e.dst2[p], e.dst[p]) THEN {"C15"} ELSE {})
   \cup (IF ~e.del /\ (\E p \in Dom(e.names) : e.dst[p] # Absent /\ e.dst2[p] = Absent) THEN {"C15"} ELSE {})
   \* (e.unsendable: a remote direction and a source name that is not UTF-8 - the run, dry or not, has to refuse or report
